@@ -213,6 +213,7 @@ type c11Exec struct {
 	parked   atomic.Int64 // goroutines of the streamer parked at a transaction boundary
 	resMu    sync.Mutex
 	hol      string // first "stall-behind-oversized" observation of the execution
+	diverged bool   // the replay of a prefix did not reach the state it reached before
 	holAt    int    // index of the event after which it was seen (-1: stream start)
 	evNo     int
 	resume   chan struct{}
@@ -231,7 +232,7 @@ type c11Out struct {
 // found, the state key at the end and which events are enabled there.
 func (x *c11Exec) run(events []string) (viols []string, key string, enabled map[string]bool, sends int, err error) {
 	w := x.w
-	x.spun, x.hol, x.holAt, x.evNo = false, "", 0, -1
+	x.spun, x.hol, x.holAt, x.evNo, x.diverged = false, "", 0, -1, false
 	if err = w.Restore(x.base); err != nil {
 		return
 	}
@@ -403,6 +404,14 @@ func (x *c11Exec) run(events []string) (viols []string, key string, enabled map[
 			out = out[1:]
 			vmu.Unlock()
 		}
+		if oldest == "" && (ev == "streamAck" || ev == "streamNack" || ev == "streamModack0" || ev == "extAck") {
+			// the event was enabled when this prefix was explored before, but in THIS
+			// replay the client holds nothing: the two executions of the prefix differ
+			// (which goroutine got how far within a statement budget is not controlled
+			// in this layer). Counted, never judged.
+			x.diverged = true
+			break
+		}
 		switch ev {
 		case "streamAckInSend", "extAckInSend":
 			// provoke a fresh Send by publishing is not needed: re-create the window by
@@ -518,6 +527,7 @@ type c11Result struct {
 	MaxDepth    int
 	Complete    bool
 	Spins       int
+	Diverged    int
 	HeadOfLine  int
 	holShown    int
 	SpinExample []string
@@ -587,6 +597,10 @@ func c11Worker(t *testing.T) int {
 				if res.SpinExample == nil {
 					res.SpinExample = append([]string{}, prefix...)
 				}
+			}
+			if x.diverged {
+				res.Diverged++
+				return
 			}
 			if len(prefix) > res.MaxDepth {
 				res.MaxDepth = len(prefix)
@@ -758,7 +772,10 @@ func runC11(t *testing.T, tier string) int {
 		execs += r.Executions
 		states += r.States
 		sends += r.Sends
-		per[fmt.Sprintf("messages=%d,bytes=%d", r.Cfg.MaxMessages, r.Cfg.MaxBytes)] = map[string]any{"executions": r.Executions, "quiescent_states": r.States, "sends_checked": r.Sends, "max_depth": r.MaxDepth, "busy_loop_executions": r.Spins, "busy_loop_example": r.SpinExample, "head_of_line_stall_executions": r.HeadOfLine, "complete": r.Complete}
+		per[fmt.Sprintf("messages=%d,bytes=%d", r.Cfg.MaxMessages, r.Cfg.MaxBytes)] = map[string]any{"executions": r.Executions, "quiescent_states": r.States, "sends_checked": r.Sends, "max_depth": r.MaxDepth, "busy_loop_executions": r.Spins, "busy_loop_example": r.SpinExample, "head_of_line_stall_executions": r.HeadOfLine, "complete": r.Complete, "diverged_replays": r.Diverged}
+		if r.Diverged > 0 {
+			allComplete = false
+		}
 		if !r.Complete {
 			allComplete = false
 			fmt.Printf("C11/events messages=%d bytes=%d: wall-clock budget reached after %d executions (depth %d NOT completed; everything explored held)\n", r.Cfg.MaxMessages, r.Cfg.MaxBytes, r.Executions, depth)
